@@ -82,7 +82,7 @@ func executeFlipRetry(t *testing.T, prop string, seed uint64, p *FlipPlan) *core
 		sc := simnet.NewScript(b.outerRec)
 		sc.NoEOF = true
 		p, m, s := core.Guard(func() {
-			conn, err := ech.NewConn(context.Background(), sc, ech.WithKeys(b.keys))
+			conn, err := ech.NewConn(context.Background(), sc, keyOptions(b.keys)...)
 			if err != nil {
 				rerr = fmt.Errorf("NewConn: %w", err)
 				return
